@@ -86,6 +86,21 @@ Theorem C12_refuted_check_then_act :
 Proof. exact refuted_check_then_act. Qed.
 Print Assumptions C12_refuted_check_then_act.
 
+(* Installing the limit is part of "any size >= 1": with the refill ticker started BEFORE the permits are put into the
+   channel (the code as it was), one tick during the fill makes the last send block for ever, for every max >= 1 - and the
+   fill does take longer than a refill period once max is in the millions.  With all permits handed out first (the repaired
+   order) the fill completes with exactly max permits, on every schedule. *)
+Theorem C12_refuted_fill_after_ticker : forall max, 1 <= max ->
+  frun max true (0, max) (FTick :: repeat FFill (max - 1)) = Some (max, 1) /\
+  forall l, fstep max true (max, 1) l = None.
+Proof. exact refuted_fill_after_ticker. Qed.
+Print Assumptions C12_refuted_fill_after_ticker.
+
+Theorem C12_fill_before_ticker : forall max, frun max false (0, max) (repeat FFill max) = Some (max, 0) /\
+  forall ls c, frun max false (0, max) ls = Some c -> fst c + snd c = max.
+Proof. exact fill_before_ticker. Qed.
+Print Assumptions C12_fill_before_ticker.
+
 (* non-vacuity: prog_disj is a program; under max = 1 with the repaired release the deadlock schedule continues to a
    finished search with the same two answers, in 10 + 3 <= work * 2 = 22 steps; its erasure is the unlimited run *)
 Example C12_nonvacuous :
